@@ -404,6 +404,9 @@ def gen_case(rng, pi_method=None, threshold=None, **kw):
             mp["unit_blocklist"] = sorted(set(mp.get("unit_blocklist", [])) | {rng.choice(zb)})
     if kw.get("blocklist", True) and len(case["states"]) >= 2 and rng.random() < 0.3:
         mp["postal_code_blocklist"] = [case["states"][-1]]
+    if mp.get("postal_code_blocklist") and mp.get("states_for_separate_model"):
+        # a separate model for a state while the only other state is blocklisted duplicates every column (singular without regularisation)
+        mp.pop("states_for_separate_model")
     if "outlier" in kw and not kw["outlier"]:
         mp["fit_margin_outlier_model"] = False
         mp["fit_turnout_outlier_model"] = False
